@@ -104,6 +104,9 @@ fn c10_strategy() -> impl Strategy<Value = Scenario> {
         freeze_polls: false,
         initial_pending: vec![],
         ds_read_faults: vec![],
+        initial_succeeded: vec![],
+        cfg_later: None,
+        notif_stall: false,
             };
             // fund the HTLC for whatever amount the reference classifier expects
             if let Class::Trampoline { amount, .. } = scn.classify(0) {
